@@ -64,6 +64,7 @@ struct SrvConn
     std::deque<int> pendingTags; // requests read, not yet (completely) answered
     int piecesSent = 0;          // of the response to the front request
     bool closed    = false;
+    bool clientGone = false;     // the client's FIN / RST has arrived (seen by the connection count before the script reads it)
 };
 struct ScriptedServer
 {
@@ -157,6 +158,18 @@ struct ScriptedServer
         int hi = fcntl(fd, F_DUPFD_CLOEXEC, 700);
         static auto cl = sim::real<int (*)(int)>("close");
         cl(fd);
+        // the connection count is the client's: a connection whose FIN / RST from the client has already arrived (loopback:
+        // as soon as the client's close() returned) is not one the client still has, whether or not the script has read it
+        for (auto& o : conns)
+            if (!o.closed && !o.clientGone)
+            {
+                struct pollfd p = { o.fd, POLLIN | POLLRDHUP, 0 };
+                if (::poll(&p, 1, 0) > 0 && (p.revents & (POLLRDHUP | POLLHUP | POLLERR)))
+                {
+                    o.clientGone = true;
+                    --openNow;
+                }
+            }
         SrvConn c;
         c.fd = hi;
         conns.push_back(c);
@@ -213,7 +226,8 @@ struct ScriptedServer
             }
             cl(conns[ci].fd);
             conns[ci].closed = true;
-            --openNow;
+            if (!conns[ci].clientGone)
+                --openNow;
         }
     }
     static std::string response_for(int tag, bool chunked)
